@@ -1,5 +1,7 @@
 import datetime
 
+from . import xlerrors
+
 EXCEL_EPOCH = datetime.datetime(1900, 1, 1)
 
 
@@ -7,9 +9,13 @@ def number_to_datetime(value):
     # Serial 60 is Excel's non-existent 29 February 1900: only serials from
     # 60 on are shifted by it (59 is 28 February 1900, 61 is 1 March 1900).
     offset = 2 if value >= 60 else 1
-    delta = datetime.timedelta(
-        days=int(value) - offset, seconds=(value % 1) * 24 * 60 * 60)
-    return EXCEL_EPOCH + delta
+    try:
+        delta = datetime.timedelta(
+            days=int(value) - offset, seconds=(value % 1) * 24 * 60 * 60)
+        return EXCEL_EPOCH + delta
+    except OverflowError:
+        # There is no date after 9999-12-31 (serial 2958465).
+        raise xlerrors.NumExcelError(f'{value} is not the serial of a date')
 
 
 def datetime_to_number(value):
